@@ -372,28 +372,47 @@ def run(ctx):
     if okx and erows:
         answers = run_model(runner, [r["eng"] for r in erows], 2)
         ecmp = 0
+        etraps = 0
         for r, ans in zip(erows, answers):
-            if r.get("out") != "success":
-                continue        # reported by the harness itself (engine-scenario-did-not-complete)
-            exp = None
-            if ";| " in ans:
-                obs, fin = ans.split(";| ")
+            exp, fin, logs, what = None, "", "", None
+            if ans.startswith("trap "):
+                # the model says the call-depth budget is exhausted right after resume number <step>
+                etraps += 1
+                step = int(ans.split()[1])
+                if not (r.get("out", "").startswith("trap") and "Too many nested" in r.get("out", "") and r.get("interrupts") == step + 1):
+                    what = "the model traps at step %d (call depth beyond MAX_ACTIVATION_FRAMES after the resume), the implementation: %s after %s interrupts" % (
+                        step, r.get("out"), r.get("interrupts"))
+            elif ans.startswith("ok "):
+                obs, rest = ans[3:].split(";| ")
+                fin, _, logs = rest.partition(" | ")
                 b = b""
                 for o in obs.split(";"):
-                    w, rc1, b1, id2, rc2, b2 = o.split(",")
-                    b += int(w).to_bytes(8, "little") + int(rc1).to_bytes(4, "little") + bytes.fromhex(b1)
+                    w, bal, rec, rc1, b1, id2, rc2, b2 = o.split(",")
+                    b += int(w).to_bytes(8, "little") + int(bal).to_bytes(8, "little") + int(rec).to_bytes(4, "little")
+                    b += int(rc1).to_bytes(4, "little") + bytes.fromhex(b1)
                     b += int(id2).to_bytes(8, "little") + int(rc2).to_bytes(4, "little") + bytes.fromhex(b2)
                 exp = (b + bytes.fromhex("5a5a5a5a")).hex()
+                if r.get("out") != "success":
+                    what = "the model completes, the implementation: %s after %s interrupts" % (r.get("out"), r.get("interrupts"))
+                elif exp != r["rv"]:
+                    what = "return value (response word / balance / recursion result / handle reads / lookup id) differs"
+                elif fin.strip() != (r.get("final") or ""):
+                    what = "final entry value differs"
+                elif logs.strip() != r.get("logs", ""):
+                    what = "logs handed out per section differ (model %s, implementation %s)" % (logs.strip(), r.get("logs"))
+            else:
+                what = "model answer: %s" % ans[:120]
             ecmp += 1
-            if exp is None or exp != r["rv"] or fin.strip() != (r.get("final") or ""):
+            if what:
                 neng += 1
                 if neng <= 6:
-                    ctx.violation({"layer": "v1 engine vs Contract/V1Resume.v", "case": r.get("case"), "scenario": r["eng"],
-                                   "model_return_value": exp, "impl_return_value": r["rv"], "model_final_entry": ans.split(";| ")[-1] if exp else ans[:200],
-                                   "impl_final_entry": r.get("final"),
-                                   "layout": "per resume: response word u64, rc+4 bytes read through the pre-interrupt handle, id of a fresh lookup u64, rc+4 bytes read through it; then the grown-memory mark",
+                    ctx.violation({"layer": "v1 engine vs Contract/V1Resume.v", "case": r.get("case"), "scenario": r["eng"], "what": what,
+                                   "model_answer": ans[:600], "model_return_value": exp, "impl_return_value": r.get("rv"), "impl_outcome": r.get("out"),
+                                   "impl_final_entry": r.get("final"), "impl_logs": r.get("logs"),
+                                   "layout": "per resume: response word u64, self balance u64, recursion result u32, rc+4 bytes read through the pre-interrupt handle, id of a fresh lookup u64, rc+4 bytes read through it; then the grown-memory mark",
                                    "how_to_replay": ".cache/target/release/c13 engine %s %s" % (ctx.seed, ne)},
-                                  "engine: observations after resume_receive differ from the model (response word / handle invalidation / entry contents): %s" % r["eng"][:160])
+                                  "engine: %s: %s" % (what[:200], r["eng"][:160]))
+        estats["model_traps_call_depth"] = etraps
         estats["scenarios_compared_with_model"] = ecmp
         ctx.cov["traces_validated_against_impl"] += ecmp
     ctx.notes["engine"] = estats
